@@ -572,7 +572,7 @@ fn gen_listener(rng: &mut Rng) -> crate::net::NetScenario {
         .collect();
     NetScenario {
         seed: rng.next_u64(),
-        cfg: NetCfg { secret: None, expiry: None, max_frame: None, timeout_ns: timeout_s * 1_000_000_000, proxy: None, limiter: None, use_start: false, agones: false, secret_source: None },
+        cfg: NetCfg { secret: None, expiry: None, max_frame: None, timeout_ns: timeout_s * 1_000_000_000, proxy: None, limiter: None, use_start: false, agones: false, secret_source: None, localization_from_services: false },
         wall: Default::default(),
         services,
         clients,
